@@ -10,7 +10,7 @@ from __future__ import annotations
 import numpy as np
 
 from .. import circmon, qubitref as qr, tomoref
-from ..gen import haar
+from ..gen import equivalent_variant, haar
 from .c15 import random_1q
 from .common import drain_into, merge_stats, setup
 
@@ -23,7 +23,8 @@ RULE = ("seeded base circuits: one-qubit random Rz.Ry.Rz products and named gate
 MANDATORY = ["li_complex_nonsymmetric", "mle_complex_nonsymmetric", "gate_fidelity_other_target",
              "gate_fidelity_same_target", "two_qubit_li", "two_qubit_entangling", "direct_herald",
              "tomography_object_reused_after_edit"]
-DECIDING = ["li_postconditions", "mle_postconditions", "gate_fidelity_postconditions", "callback_pairs_answered"]
+DECIDING = ["li_postconditions", "mle_postconditions", "gate_fidelity_postconditions", "callback_pairs_answered",
+            "earlier_objects_rechecked"]
 BUDGET = {"quick": 40, "thorough": 600}
 ASSUMPTIONS = ["V = normalised dual-rail amplitude matrix of the base circuit (own permanent)", "LI choi and fidelity to "
                "1e-8 / 1e-6; MLE: smallest eigenvalue of the Hermitian part >= -1e-6, a partial trace within 1e-3 of the "
@@ -76,6 +77,7 @@ def run(ctx):
             out.append(tomoref.dual_rail_probs(c, list(s), State))
         return out
 
+    earlier: list = []
     while not ctx.out_of_time():
         n = 1 if rng.random() < (0.8 if ctx.tier == "quick" else 0.7) else 2
         method = str(rng.choice(["LI", "MLE", "GF", "GF"] if n == 1 else ["LI", "LI", "GF", "MLE"]))
@@ -88,6 +90,18 @@ def run(ctx):
             circmon.drain()
             continue
         circmon.drain()
+        try:
+            if base_off == 0 or True:
+                newb, variant = equivalent_variant(base, rng)
+                if variant != "unpacked_copy" or not base._internal_modes:
+                    base = newb           # (an unpacked copy renumbers the ancilla modes: offsets would no longer hold)
+                else:
+                    variant = "itself"
+        except Exception as e:  # noqa: BLE001
+            ctx.count("variant_raised:" + type(e).__name__)
+            continue
+        ctx.bucket("base_presented_as:" + variant)
+        circmon.drain()
         m = tomoref.dual_rail_matrix(base, n)
         v, c, dev = tomoref.normalised_unitary(m)
         if v is None or dev > 1e-8:
@@ -95,7 +109,7 @@ def run(ctx):
             continue
         complex_nonsym = bool(np.max(np.abs(v - v.T)) > 0.05 and np.max(np.abs((v / v.flat[np.argmax(np.abs(v))]).imag)) > 0.05)
         d = 2 ** n
-        case = {"n": n, "base": log, "method": method}
+        case = {"n": n, "base": log, "method": method, "base_presented_as": variant}
         if n == 2 and ent:
             ctx.bucket("two_qubit_entangling")
         fp = circmon.circuit_fingerprint(base, with_unitary=True)
@@ -176,6 +190,27 @@ def run(ctx):
                           mechanism="process_tomography_raised:" + method + ":" + type(e).__name__, monitor="driver")
         if circmon.circuit_fingerprint(base, with_unitary=True) != fp:
             ctx.violation("the base circuit changed", case=case, mechanism="base_changed", monitor="fingerprint")
+        # earlier tomography objects must still report their own results
+        for kind_o, obj_o, val_o in earlier:
+            ctx.count("earlier_objects_rechecked")
+            try:
+                now = obj_o.choi if kind_o == "choi" else obj_o.fidelity
+                if np.max(np.abs(np.asarray(now) - val_o)) > 1e-12:
+                    ctx.violation(f"the {kind_o} reported by an earlier tomography object changed after a later object ran",
+                                  case=case, mechanism="earlier_object_changed:" + kind_o, monitor="earlier-object re-read")
+            except Exception as e:  # noqa: BLE001
+                ctx.count("earlier_reread_raised:" + type(e).__name__)
+        if "pt" in objs:
+            try:
+                earlier.append(("choi", objs["pt"], np.array(objs["pt"].choi, copy=True)))
+            except Exception:  # noqa: BLE001
+                pass
+        if "gf" in objs:
+            try:
+                earlier.append(("fidelity", objs["gf"], np.array(objs["gf"].fidelity, copy=True)))
+            except Exception:  # noqa: BLE001
+                pass
+        del earlier[:-4]
         ctx.case((n, tuple(tuple(map(str, g)) for g in log), method, case.get("target")),
                  complex_nonsym or case.get("target") not in (None, "same"), sample=case)
         drain_into(ctx, case)
